@@ -37,7 +37,8 @@ The request lock is modelled by the register `txTest`: while it is `some _` the 
 the actions the real code performs under the lock (`rxMatch`, `rxCleanup`, `closeActive`, `closePending`) are not
 enabled.  With `locked := false` that restriction is dropped: this is the code before the repair.
 
-Every label carries what the implementation observed (which entry was popped, whether the request was parked);
+Every label carries what the implementation observed (which entry was popped, whether the request was parked, which
+parked requests were taken out of `pending`);
 `stepF` applies the observed effect unconditionally (it is the observer used by the monitors), `enabled` compares the
 observation with what the model computes, `step` = `stepF` guarded by `enabled`.
 
@@ -143,11 +144,11 @@ inductive Label (α : Type) where
   | txSendFail
   | peerEmit (err : Bool) (action : α) (spec : Spec) (event : Bool) (re : Option Nat)
   | rxRead
-  | rxMatch (found : Option Nat)
+  | rxMatch (found : Option Nat) (took : List Nat)
   | rxSetEvent
   | rxRequeue
   | rxCleanPop
-  | rxCleanup (removed : Bool)
+  | rxCleanup (removed : Bool) (took : List Nat)
   | closeBegin
   | closeTxq
   | closeActive
@@ -177,27 +178,41 @@ def popId : List (Key α × Entry α) → Nat → Option (Entry α × List (Key 
 def rxDeliver (s : St α) (act : List (Key α × Entry α)) (e : Entry α) (l : Line α) : St α :=
   { s with active := act, rxLine := none, rxSet := some (e, l), rxHold := s.rxHold ++ s.pending, pending := [] }
 
-def rxMatchF (tbl : List (α × α)) (s : St α) (l : Line α) (found : Option Nat) : St α :=
+/-- the parked requests the model takes out of `pending` when a key was freed (`while not pending.empty(): get()`) -/
+def expectTake (s : St α) (freed : Bool) : List Nat := if freed then s.pending.map (·.id) else []
+
+/-- observer: move exactly the entries the implementation took out of `pending` -/
+def takeParked (s : St α) (took : List Nat) : St α :=
+  { s with rxHold := s.rxHold ++ s.pending.filter (fun e => took.contains e.id),
+           pending := s.pending.filter (fun e => !took.contains e.id) }
+
+def rxMatchF (tbl : List (α × α)) (s : St α) (l : Line α) (found : Option Nat) (took : List Nat) : St α :=
   let m := matchEntry tbl s l
-  if found = m.map (·.id) then
+  if found = m.map (·.id) ∧ took = expectTake s m.isSome then
     match m with
     | some e => rxDeliver s (eraseKey s.active (resolve tbl s.active l)) e l
     | none => { s with rxLine := none }
   else
     match found with
-    | none => { s with rxLine := none }
+    | none => takeParked { s with rxLine := none } took
     | some i =>
       match popId s.active i with
-      | some (e, act) => rxDeliver s act e l
-      | none => { s with rxLine := none }
+      | some (e, act) => takeParked { s with active := act, rxLine := none, rxSet := some (e, l) } took
+      | none => takeParked { s with rxLine := none } took
 
-def rxCleanupF (s : St α) (i : Nat) (removed : Bool) : St α :=
-  if removed then
-    match findId s.active i with
-    | some k => { s with rxClean := none, active := eraseKey s.active k,
-                         rxHold := s.rxHold ++ s.pending, pending := [] }
-    | none => { s with rxClean := none }
-  else { s with rxClean := none }
+def rxCleanupF (s : St α) (i : Nat) (removed : Bool) (took : List Nat) : St α :=
+  if removed = (findId s.active i).isSome ∧ took = expectTake s removed then
+    if removed then
+      match findId s.active i with
+      | some k => { s with rxClean := none, active := eraseKey s.active k,
+                           rxHold := s.rxHold ++ s.pending, pending := [] }
+      | none => { s with rxClean := none }
+    else { s with rxClean := none }
+  else
+    match popId s.active i with
+    | some (_, act) => if removed then takeParked { s with rxClean := none, active := act } took
+                       else takeParked { s with rxClean := none } took
+    | none => takeParked { s with rxClean := none } took
 
 /-- apply the observed effect of one action (total; a label that does not fit the state leaves it unchanged) -/
 def stepF (tbl : List (α × α)) (s : St α) : Label α → St α
@@ -224,9 +239,9 @@ def stepF (tbl : List (α × α)) (s : St α) : Label α → St α
     match s.wireIn with
     | l :: t => { s with wireIn := t, rxLine := some l }
     | [] => s
-  | .rxMatch found =>
+  | .rxMatch found took =>
     match s.rxLine with
-    | some l => rxMatchF tbl s l found
+    | some l => rxMatchF tbl s l found took
     | none => s
   | .rxSetEvent =>
     match s.rxSet with
@@ -240,9 +255,9 @@ def stepF (tbl : List (α × α)) (s : St α) : Label α → St α
     match s.cleanup with
     | i :: t => { s with cleanup := t, rxClean := some i }
     | [] => s
-  | .rxCleanup removed =>
+  | .rxCleanup removed took =>
     match s.rxClean with
-    | some i => rxCleanupF s i removed
+    | some i => rxCleanupF s i removed took
     | none => s
   | .closeBegin => { s with closing := true }
   | .closeTxq =>
@@ -274,16 +289,17 @@ def enabled (tbl : List (α × α)) (locked : Bool) (s : St α) : Label α → B
   | .txSendFail => s.txOut.isSome
   | .peerEmit .. => true
   | .rxRead => s.rxClean.isNone && s.rxLine.isNone && s.rxSet.isNone && s.rxHold.isEmpty && !s.wireIn.isEmpty
-  | .rxMatch found =>
+  | .rxMatch found took =>
     match s.rxLine with
     | some l => s.rxSet.isNone && (l.event || lockFree locked s) && (found == (matchEntry tbl s l).map (·.id))
+                && (took == expectTake s (matchEntry tbl s l).isSome)
     | none => false
   | .rxSetEvent => s.rxSet.isSome
   | .rxRequeue => s.rxSet.isNone && !s.rxHold.isEmpty
   | .rxCleanPop => s.rxClean.isNone && s.rxLine.isNone && s.rxSet.isNone && s.rxHold.isEmpty && !s.cleanup.isEmpty
-  | .rxCleanup removed =>
+  | .rxCleanup removed took =>
     match s.rxClean with
-    | some i => lockFree locked s && (removed == (findId s.active i).isSome)
+    | some i => lockFree locked s && (removed == (findId s.active i).isSome) && (took == expectTake s removed)
     | none => false
   | .closeBegin => true
   | .closeTxq => s.closing && !s.txq.isEmpty
